@@ -13,7 +13,7 @@ class C18(pure.Spec):
                 "C18_udp_parse_fragment", "C18_udp_parse_never_panics"]
     crate = "pure"
     binary = "vh-pure"
-    design_ref = "DESIGN.md §4 C18"
+    design_ref = "DESIGN.md §5 C18"
     rule = ("SOCKS5 requests (all address types, every domain length 0..255, unknown versions/types/commands), SOCKS4 and "
             "SOCKS4a requests (0.0.0.x, 0.0.0.0, 0.a.b.c, user ids and domains of lengths 0..255), each complete (with and "
             "without trailing bytes), truncated at every byte (short ones) or at a random byte, over a closed input "
